@@ -270,8 +270,15 @@ func calculateSystemConfigMerged(oldCfg configuration.SystemCfg, configMap *core
 		// merge with clusterStrategy
 		clusterCfgCopy := mergedCfg.ClusterStrategy.DeepCopy()
 		if nodeStrategy.SystemStrategy != nil {
+			// TotalNetworkBandwidth is not a pointer, so an unset value is marshaled as "0" and would override
+			// the cluster strategy; keep the cluster value when the node strategy does not set it
+			nodeTotalNetworkBandwidthUnset := nodeStrategy.SystemStrategy.TotalNetworkBandwidth.IsZero()
 			mergedStrategyInterface, _ := util.MergeCfg(clusterCfgCopy, nodeStrategy.SystemStrategy)
-			mergedCfg.NodeStrategies[index].SystemStrategy = mergedStrategyInterface.(*slov1alpha1.SystemStrategy)
+			mergedNodeStrategy := mergedStrategyInterface.(*slov1alpha1.SystemStrategy)
+			if nodeTotalNetworkBandwidthUnset {
+				mergedNodeStrategy.TotalNetworkBandwidth = mergedCfg.ClusterStrategy.TotalNetworkBandwidth.DeepCopy()
+			}
+			mergedCfg.NodeStrategies[index].SystemStrategy = mergedNodeStrategy
 		} else {
 			mergedCfg.NodeStrategies[index].SystemStrategy = clusterCfgCopy
 		}
